@@ -221,14 +221,23 @@ pub fn find_unconstrained_less_than(cfg: &Cfg) -> ReportCollection {
         // Inputs are matched by the expression. An expression which reads a local variable may
         // have different values at different points of the template (an index variable has the
         // same name inside and after a loop), so for such an expression only a range check in
-        // the same basic block counts. A parameter of the template (as passed: a parameter
-        // which is assigned is a new variable) has one value.
+        // a basic block which dominates the block of the comparison counts: the variables are
+        // not assigned between the check and the comparison then. A parameter of the template
+        // (as passed: a parameter which is assigned is a new variable) has one value.
         let is_fixed = value.locals_read().iter().all(|var| cfg.parameters().contains(var.name()));
+        let dominates = |other_block: &Index, block: &Index| {
+            other_block == block
+                || cfg.get_basic_block(*block).is_some_and(|basic_block| {
+                    cfg.get_dominators(basic_block)
+                        .iter()
+                        .any(|dominator| dominator.index() == *other_block)
+                })
+        };
         // Check if the value is used as input for `LessThan` without being constrained to be
         // positive.
         let unchecked = data.less_than.iter().find(|(_, block)| {
             !data.bit_sizes.iter().any(|(bit_size, other_block)| {
-                (is_fixed || other_block == block)
+                (is_fixed || dominates(other_block, block))
                     && matches!(
                         bit_size.value(),
                         Some(ValueReduction::FieldElement { value }) if *value < max_value
